@@ -493,6 +493,11 @@ impl MasterSession {
         }
 
         if response.header.iin.has_bad_request_error() {
+            // the indications (restart, need time, overflow, events) of a response that
+            // rejects the request are as valid as those of any other response
+            if let Ok(association) = self.associations.get_mut(destination.link) {
+                association.process_iin(response.header.iin);
+            }
             return Err(TaskError::RejectedByIin2(response.header.iin));
         }
 
@@ -638,12 +643,13 @@ impl MasterSession {
             return Err(TaskError::NonFinWithoutCon);
         }
 
+        let association = self.associations.get_mut(destination.link)?;
+        association.process_iin(response.header.iin);
+
         if response.header.iin.has_bad_request_error() {
             return Err(TaskError::RejectedByIin2(response.header.iin));
         }
 
-        let association = self.associations.get_mut(destination.link)?;
-        association.process_iin(response.header.iin);
         task.process_response(association, response.header, response.objects?)
             .await;
 
